@@ -5,7 +5,7 @@
    the merkle tree of merkle.rs has no domain separation between a leaf and an
    inner node, which the free-term model also idealises away (leaves are opaque
    values distinct from inner nodes) — both are named in the trusted base. *)
-From Saito Require Import Base Bytes BytesProofs Merkle BlockId BlockIdProofs.
+From Saito Require Import Base Bytes BytesProofs Merkle BlockId BlockIdProofs HashBridge.
 
 (* the signed header bytes determine every signed field (fixed-width big-endian
    fields in the order of Block::serialize_for_signature) *)
@@ -54,7 +54,7 @@ Proof. exact edit_rejected. Qed.
 
 (* non-vacuity: a three-transaction block passes the checks; swapping two transactions fails them *)
 Example C06_example :
-  let t n := Merkle.mkTx 0 1 0 0 0 [] [] 0 0 (Some (Leaf n)) in
+  let t n := Merkle.mkTx 0 1 0 0 0 [] [] 0 0 0 (Some (Leaf n)) in
   let txs := [t 5; t 6; t 7] in
   match merkle_root_of txs with
   | Ok r => identity_checks (mkAB (mkH 1 2 [] [] r []) txs true) = true
@@ -63,8 +63,76 @@ Example C06_example :
   end.
 Proof. vm_compute. split; reflexivity. Qed.
 
+(* ------------------------------------------------------------------------------
+   The same statements for an ARBITRARY concrete hash function H (bytes -> 32 bytes)
+   instead of free terms: the collision case is an explicit disjunct, and the missing
+   leaf/inner-node domain separation of merkle.rs is replaced by the premise that the
+   signed bytes of a transaction are never exactly 64 bytes long (an inner node hashes
+   exactly 64 bytes).  [bytes_of] maps an interned transaction-hash id to the bytes that
+   are hashed.  Proofs in proofs/HashBridge.v. *)
+
+(* the 32-byte value of a term is injective up to an exhibited collision *)
+Theorem C06_hash_terms_faithful : forall (H : list N -> list N) (bytes_of : N -> list N),
+  (forall x, length (H x) = 32%nat) -> (forall a b, bytes_of a = bytes_of b -> a = b) ->
+  forall t1 t2, leaf_ok bytes_of t1 -> leaf_ok bytes_of t2 ->
+  ev H bytes_of t1 = ev H bytes_of t2 -> t1 = t2 \/ Collision H.
+Proof. exact ev_inj. Qed.
+
+(* the merkle root computed over concrete 32-byte leaf values (the loop of merkle.rs) is
+   the value of the symbolic root *)
+Theorem C06_concrete_root_is_term_value : forall (H : list N -> list N) (bytes_of : N -> list N) txs ts r,
+  txs <> [] -> all_some (leaves txs) = Some ts -> merkle_root_of txs = Ok r ->
+  cmerkle_root H (map (ev H bytes_of) ts) = Some (ev H bytes_of r).
+Proof. exact cmerkle_root_is_ev. Qed.
+
+(* equal concrete block hashes H (prev ++ H (signed bytes)): equal identity, or a collision *)
+Theorem C06_concrete_hash_binds : forall (H : list N -> list N) (bytes_of : N -> list N),
+  (forall x, length (H x) = 32%nat) -> (forall a b, bytes_of a = bytes_of b -> a = b) ->
+  forall h1 h2, wf_header h1 -> wf_header h2 ->
+  leaf_ok bytes_of (h_root h1) -> leaf_ok bytes_of (h_root h2) ->
+  cblock_hash H bytes_of h1 = cblock_hash H bytes_of h2 ->
+  block_identity h1 = block_identity h2 \/ Collision H.
+Proof. exact cblock_hash_binds. Qed.
+
+(* C06 end to end: two blocks that pass the identity checks and have the same concrete
+   hash carry the same ordered transaction hashes, creator and signed header fields, or
+   two different byte strings with the same hash are exhibited *)
+Theorem C06_same_concrete_hash_same_content :
+  forall (H : list N -> list N) (bytes_of : N -> list N),
+  (forall x, length (H x) = 32%nat) -> (forall a b, bytes_of a = bytes_of b -> a = b) ->
+  forall b1 b2 ids1 ids2,
+  wf_header (ab_hdr b1) -> wf_header (ab_hdr b2) ->
+  identity_checks b1 = true -> identity_checks b2 = true ->
+  ab_txs b1 <> [] -> ab_txs b2 <> [] ->
+  leaf_ids (leaves (ab_txs b1)) = Some ids1 -> leaf_ids (leaves (ab_txs b2)) = Some ids2 ->
+  Forall (fun i => length (bytes_of i) <> 64%nat) ids1 ->
+  Forall (fun i => length (bytes_of i) <> 64%nat) ids2 ->
+  cblock_hash H bytes_of (ab_hdr b1) = cblock_hash H bytes_of (ab_hdr b2) ->
+  (ids1 = ids2
+   /\ h_creator (ab_hdr b1) = h_creator (ab_hdr b2)
+   /\ h_id (ab_hdr b1) = h_id (ab_hdr b2) /\ h_ts (ab_hdr b1) = h_ts (ab_hdr b2)
+   /\ h_nums (ab_hdr b1) = h_nums (ab_hdr b2))
+  \/ Collision H.
+Proof. exact same_concrete_hash_same_content. Qed.
+
+(* the premises on H and bytes_of are satisfiable *)
+Example C06_hash_premises_satisfiable :
+  exists (H : list N -> list N) (bytes_of : N -> list N),
+    (forall x, length (H x) = 32%nat) /\ (forall a b, bytes_of a = bytes_of b -> a = b)
+    /\ (forall i, length (bytes_of i) <> 64%nat).
+Proof.
+  exists (fun x => firstn 32 (x ++ repeat 0 32)), (fun i => [i]). repeat split.
+  - intros x. rewrite firstn_length, app_length, repeat_length. lia.
+  - intros a b E. now inversion E.
+  - intros i. cbn. lia.
+Qed.
+
 Print Assumptions C06_header_bytes_injective.
 Print Assumptions C06_root_determines_leaves.
 Print Assumptions C06_same_hash_same_content.
 Print Assumptions C06_creator_bound.
 Print Assumptions C06_edit_rejected.
+Print Assumptions C06_hash_terms_faithful.
+Print Assumptions C06_concrete_root_is_term_value.
+Print Assumptions C06_concrete_hash_binds.
+Print Assumptions C06_same_concrete_hash_same_content.
